@@ -22,7 +22,7 @@ TABLE = [
     ("tls_record::parse_tls_raw_record", G.raw_record, ["C02", "C06"]),
     ("tls_record::parse_tls_encrypted", G.encrypted_record, ["C02", "C06"]),
     ("tls_record::parse_tls_plaintext", G.plaintext_record, ["C02", "C03", "C06", "C09"]),
-    ("tls_record::parse_tls_record_with_header", G.record_content_standalone, ["C03", "C07"]),
+    ("tls_record::parse_tls_record_with_header", G.record_content_standalone, ["C03"]),
     ("tls_record::tls_parser", G.plaintext_record, ["C16"]),
     ("tls_record::tls_parser_many", G.plaintext_records, ["C16"]),
     ("tls_message::parse_tls_message_changecipherspec", G.ccs, ["C03"]),
@@ -52,7 +52,7 @@ TABLE = [
     ("tls_handshake::parse_tls_handshake_msg_next_protocol", wrap("NextProtocol", G.next_protocol), ["C04"]),
     ("tls_handshake::parse_tls_handshake_msg_key_update", lambda b: ctor(MH + "KeyUpdate", b.u(8)), ["C04"]),
     # extensions
-    ("tls_extensions::parse_tls_extension", G.extension(G.GENERIC_TYPES), ["C05", "C06", "C09"]),
+    ("tls_extensions::parse_tls_extension", G.extension(G.GENERIC_TYPES), ["C05", "C06"]),
     ("tls_extensions::parse_tls_client_hello_extension", G.extension(G.CLIENT_TYPES), ["C05", "C06"]),
     ("tls_extensions::parse_tls_server_hello_extension", G.extension(G.SERVER_TYPES), ["C05", "C06"]),
     ("tls_extensions::parse_tls_extensions", G.extension_list(G.GENERIC_TYPES), ["C05"]),
@@ -60,9 +60,9 @@ TABLE = [
     ("tls_extensions::parse_tls_server_hello_extensions", G.extension_list(G.SERVER_TYPES), ["C05"]),
     ("tls_extensions::parse_tls_extension_unknown", G.ext_unknown, ["C05"]),
     ("tls_extensions::parse_tls_extension_sni_hostname", G.sni_hostname, ["C05"]),
-    ("tls_extensions::parse_tls_extension_sni_content", ext_content(0), ["C05"]),
-    ("tls_extensions::parse_tls_extension_max_fragment_length_content", ext_content(1), ["C05"]),
-    ("tls_extensions::parse_tls_extension_elliptic_curves_content", ext_content(10), ["C05"]),
+    ("tls_extensions::parse_tls_extension_sni_content", ext_content(0), ["C05", "C09"]),
+    ("tls_extensions::parse_tls_extension_max_fragment_length_content", ext_content(1), ["C05", "C09"]),
+    ("tls_extensions::parse_tls_extension_elliptic_curves_content", ext_content(10), ["C05", "C09"]),
     ("tls_extensions::parse_tls_extension_ec_point_formats_content", ext_content(11), ["C05"]),
     ("tls_extensions::parse_tls_extension_signature_algorithms_content", ext_content(13), ["C05"]),
     ("tls_extensions::parse_tls_extension_heartbeat_content", ext_content(15), ["C05"]),
@@ -118,11 +118,14 @@ PROJECTION = {
     ("C03", "tls_record::parse_tls_plaintext"): ("cut", 1),          # messages framed; handshake bodies are C04's
     ("C03", "tls_record::parse_tls_record_with_header"): ("cut", 0),
     ("C03", "tls_handshake::parse_tls_message_handshake"): ("cut", 0),
-    ("C07", "tls_record::parse_tls_record_with_header"): ("cut", 0),
+    # C09: the reader only matters for what the serializer can emit: ChangeCipherSpec and Handshake records; HelloRequest,
+    # ClientHello, ServerHello (all forms), ClientKeyExchange, Finished
+    ("C09", "tls_record::parse_tls_plaintext"): ("arms", [{0x14, 0x16}, {0, 1, 2, 16, 20}, None]),
+    ("C09", "tls_handshake::parse_tls_message_handshake"): ("arms", [{0, 1, 2, 16, 20}, None]),
 }
 for _p, _s, _props in TABLE:
     if "C06" in _props:
-        PROJECTION[("C06", _p)] = ("skeleton",)
+        PROJECTION[("C06", _p)] = ("skeleton", 0)   # what happens inside a length-delimited region cannot affect locality
 
 
 def entries(prop):
